@@ -229,24 +229,113 @@ def sample_files(ctx):
         judge_grid(ctx, g, dict(file=rel), "file", ("file", rel), prefix="C03/file/")
 
 
+STORES = {"i32": np.int32, "i64": np.int64, "f64": np.float64}
+TABLES = ("face_node_connectivity", "edge_node_connectivity", "face_edge_connectivity", "edge_face_connectivity",
+          "face_face_connectivity", "node_face_connectivity", "hole_edge_indices", "n_nodes_per_face")
+
+
+def snapshot(g):
+    """every table of the grid the specification reads, as the user sees it now"""
+    return {k: np.asarray(getattr(g, k).values).tolist() for k in TABLES}
+
+
+def judge_reopened(ctx, fmt, src, opens, inp, key):
+    """the SAME source (an in-memory dataset, or a file) is opened once per entry of `opens` (keyword arguments of
+    open_grid): every grid is judged by the Lean spec against its own tables; afterwards every earlier grid must
+    still show the tables it showed when it was opened (and still meet the spec), and grids opened the same way
+    must show the same tables.  A source that a reader converts in place gives a right first grid and wrong /
+    changed later ones."""
+    import uxarray as ux
+
+    grids, snaps = [], []
+    for k, kw in enumerate(opens):
+        sub = "" if k == 0 else "reopened/"
+        inp_k = dict(inp, opening=k, open_kwargs=kw)
+        try:
+            g = ux.open_grid(src, **kw)
+        except Exception as e:
+            ctx.case(key + (k,), sample=None)
+            ctx.fail(f"C03/supplied/{sub}{fmt}/open-raises/{type(e).__name__}",
+                     f"opening #{k + 1} of the same {fmt} source raises {type(e).__name__}: {e}", inp_k)
+            return
+        supplied = [x for x in ("node_face_connectivity", "edge_face_connectivity", "face_face_connectivity") if x in g._ds]
+        if k == 0:
+            ctx.hit(f"{fmt}-supplied:" + ",".join(x.split("_conn")[0] for x in supplied))
+        else:
+            ctx.hit(f"{fmt}-reopened")
+        judge_supplied(ctx, g, dict(inp_k, supplied=supplied), key=key + (k,), prefix=f"C03/supplied/{sub}{fmt}/")
+        try:
+            snaps.append(snapshot(g))
+        except Exception as e:
+            ctx.fail(f"C03/supplied/{sub}{fmt}/raises/{type(e).__name__}", f"reading the tables of grid #{k + 1} raises {type(e).__name__}: {e}", inp_k)
+            return
+        grids.append(g)
+    if len(grids) < 2:
+        return
+    for k, g in enumerate(grids[:-1]):
+        try:
+            now = snapshot(g)
+        except Exception as e:
+            ctx.fail(f"C03/supplied/reopened/{fmt}/raises/{type(e).__name__}", f"grid #{k + 1} raises after the source was opened again: {e}", inp)
+            return
+        changed = [t for t in TABLES if now[t] != snaps[k][t]]
+        if changed:
+            ctx.fail(f"C03/supplied/reopened/{fmt}/grid-{k + 1}-changed/" + "+".join(changed),
+                     f"the tables of grid #{k + 1} changed after the same source was opened again: {changed}",
+                     dict(inp, opening=k), {t: now[t] for t in changed}, {t: snaps[k][t] for t in changed}, ["tables_stable"])
+            return
+    # the first grid once more through the Lean spec (what it reports now, cached derived tables included)
+    judge_supplied(ctx, grids[0], dict(inp, opening=0, rejudged_after=len(grids) - 1), key=key + ("rejudged",), prefix=f"C03/supplied/reopened/{fmt}/rejudged/")
+    for k in range(1, len(grids)):
+        first = next(i for i in range(k + 1) if opens[i] == opens[k])
+        if first == k:
+            continue
+        differ = [t for t in TABLES if snaps[k][t] != snaps[first][t]]
+        if differ:
+            ctx.fail(f"C03/supplied/reopened/{fmt}/tables-of-grid-{k + 1}-differ-from-grid-{first + 1}/" + "+".join(differ),
+                     f"the same source opened the same way twice gives different tables: {differ}",
+                     dict(inp, opening=k), {t: snaps[k][t] for t in differ}, {t: snaps[first][t] for t in differ}, ["same_source_same_tables"])
+            return
+    ctx.hit(f"{fmt}-reopened:all-grids-agree")
+
+
+def _with_source(ctx, ds, via_file, name, body):
+    """run body(src) with src = the in-memory dataset itself (REUSED by every opening) or a NetCDF file of it"""
+    if not via_file:
+        return body(ds)
+    import os, shutil, tempfile
+
+    tmp = tempfile.mkdtemp(prefix="c03_src_")
+    try:
+        path = os.path.join(tmp, name)
+        ds.to_netcdf(path)
+        return body(path)
+    finally:
+        shutil.rmtree(tmp, ignore_errors=True)
+
+
+def draw_source_dialect(rng, **kw):
+    return dict(store=rng.choice(["i32", "i64", "i64", "f64"]), n_open=rng.choice([2, 2, 3]), via_file=rng.random() < 0.25, **kw)
+
+
 def icon_like(ctx, m, tag, dialect=None):
     """an ICON-style source: a triangle mesh whose file supplies face_edge / edge_face / face_face / edge_node itself
-    (one-based, stored (n_max, n_elem), int32, a missing neighbour written as 0 or -1, the neighbour of slot j lying
-    across edge slot j so that padding may sit in the MIDDLE of a face_face row).  The supplied tables are written
-    from a grid of the same mesh whose tables were built by the code; what is judged is the grid read back through
-    the ICON reader: supplied edge_face / face_face, derived node_face / hole_edge_indices, by the same Lean spec."""
+    (one-based, stored (n_max, n_elem) as int32, int64 or float64, a missing neighbour written as 0 or -1, the neighbour
+    of slot j lying across edge slot j so that padding may sit in the MIDDLE of a face_face row).  The supplied tables
+    are written from a grid of the same mesh whose tables were built by the code; what is judged is every grid read
+    back through the ICON reader from the SAME source opened two or three times (judge_reopened)."""
     import uxarray as ux
     import xarray as xr
 
-    dialect = dialect or dict(missing=ctx.rng.choice([0, -1]), via_file=ctx.rng.random() < 0.3)
-    inp = dict(mesh=m.describe(), table=m.rows(), tag=tag, icon_like=dialect)
-    miss = dialect["missing"]
+    dialect = dict(dict(store="i32", n_open=1, via_file=False), **(dialect or draw_source_dialect(ctx.rng, missing=ctx.rng.choice([0, -1]))))
+    inp = dict(mesh=m.describe(), table=m.rows(), tag=tag, icon_like=dialect, file="icon-like:" + tag, use_dual=False)
+    miss, dt = dialect["missing"], STORES[dialect["store"]]
     g0 = meshes.to_grid(m, ux)
     T = g0.face_node_connectivity.values
     FE0, EF0, EN0 = g0.face_edge_connectivity.values, g0.edge_face_connectivity.values, g0.edge_node_connectivity.values
 
     def one_based(tab):
-        return np.where(tab == INT_FILL, miss, tab + 1).astype(np.int32).T.copy()
+        return np.where(tab == INT_FILL, miss, tab + 1).astype(dt).T.copy()
 
     nb = np.full(FE0.shape, INT_FILL, dtype=np.int64)
     for f in range(FE0.shape[0]):
@@ -271,55 +360,102 @@ def icon_like(ctx, m, tag, dialect=None):
     ds["neighbor_cell_index"] = xr.DataArray(one_based(nb), dims=["nv", "cell"])
     ds["adjacent_cell_of_edge"] = xr.DataArray(one_based(EF0), dims=["nc", "edge"])
     ds["edge_vertices"] = xr.DataArray(one_based(EN0), dims=["nc", "edge"])
-    tmp = None
-    try:
-        if dialect.get("via_file"):
-            import tempfile, os
-
-            tmp = tempfile.mkdtemp(prefix="c03_icon_")
-            path = os.path.join(tmp, "icon_like.nc")
-            ds.to_netcdf(path)
-            g = ux.open_grid(path)
-        else:
-            g = ux.open_grid(ds)
-    except Exception as e:
-        ctx.case(("icon", tag, m.rows(), str(dialect)), sample=None)
-        ctx.fail(f"C03/supplied/icon/open-raises/{type(e).__name__}", f"opening an ICON-style source raises {type(e).__name__}: {e}", inp)
-        return
-    finally:
-        if tmp:
-            import shutil
-
-            shutil.rmtree(tmp, ignore_errors=True)
-    supplied = [k for k in ("node_face_connectivity", "edge_face_connectivity", "face_face_connectivity") if k in g._ds]
-    ctx.hit("icon-supplied:" + ",".join(x.split("_conn")[0] for x in supplied))
     ctx.hit("icon-like:holes" if (EF0[:, 1] == INT_FILL).any() else "icon-like:closed")
-    judge_supplied(ctx, g, dict(inp, file="icon-like:" + tag, use_dual=False, supplied=supplied), key=("icon", tag, m.rows(), str(dialect)))
+    ctx.hit("source-store:" + dialect["store"] + ("/file" if dialect["via_file"] else "/in-memory"))
+    key = ("icon", tag, m.rows(), str(sorted(dialect.items())))
+    _with_source(ctx, ds, dialect["via_file"], "icon_like.nc",
+                 lambda src: judge_reopened(ctx, "icon", src, [{}] * dialect["n_open"], inp, key))
 
 
-def judge_supplied(ctx, g, inp, key=None):
+def ugrid_supplied(ctx, m, tag, dialect=None):
+    """a UGRID source that supplies ALL the incidence tables itself (face_edge, edge_face, face_face, node_face, edge_node),
+    in a drawn storage dtype / start_index / fill value, the same dataset opened two or three times"""
+    import uxarray as ux
+    import xarray as xr
+
+    dialect = dialect or draw_source_dialect(ctx.rng, start=ctx.rng.choice([0, 1]), fill=ctx.rng.choice(["std", -1, 999999]))
+    inp = dict(mesh=m.describe(), table=m.rows(), tag=tag, ugrid_supplied=dialect, file="ugrid-supplied:" + tag, use_dual=False)
+    dt, start = STORES[dialect["store"]], dialect["start"]
+    fv = INT_FILL if dialect["fill"] == "std" else dialect["fill"]
+    if dialect["store"] != "i64" and fv == INT_FILL:
+        fv = -1
+    g0 = meshes.to_grid(m, ux)
+    ds = xr.Dataset()
+    ds["Mesh2"] = xr.DataArray(np.int32(0), attrs=dict(
+        cf_role="mesh_topology", topology_dimension=2, node_coordinates="Mesh2_node_x Mesh2_node_y",
+        face_node_connectivity="Mesh2_face_nodes", edge_node_connectivity="Mesh2_edge_nodes", face_edge_connectivity="Mesh2_face_edges",
+        edge_face_connectivity="Mesh2_edge_faces", face_face_connectivity="Mesh2_face_faces", node_face_connectivity="Mesh2_node_faces",
+        edge_dimension="nMesh2_edge", edge_coordinates="Mesh2_edge_x Mesh2_edge_y"))
+    ds["Mesh2_node_x"] = xr.DataArray(m.lon.copy(), dims=["nMesh2_node"])
+    ds["Mesh2_node_y"] = xr.DataArray(m.lat.copy(), dims=["nMesh2_node"])
+    # edge coordinates: the reader names the edge dimension after them
+    EN0 = g0.edge_node_connectivity.values
+    exyz = m.xyz[EN0[:, 0]] + m.xyz[EN0[:, 1]]
+    exyz = exyz / np.linalg.norm(exyz, axis=1, keepdims=True)
+    ds["Mesh2_edge_x"] = xr.DataArray(np.degrees(np.arctan2(exyz[:, 1], exyz[:, 0])), dims=["nMesh2_edge"])
+    ds["Mesh2_edge_y"] = xr.DataArray(np.degrees(np.arcsin(np.clip(exyz[:, 2], -1, 1))), dims=["nMesh2_edge"])
+    for name, attr, dims in (("Mesh2_face_nodes", "face_node_connectivity", ("nMesh2_face", "nMaxMesh2_face_nodes")),
+                             ("Mesh2_edge_nodes", "edge_node_connectivity", ("nMesh2_edge", "Two")),
+                             ("Mesh2_face_edges", "face_edge_connectivity", ("nMesh2_face", "nMaxMesh2_face_nodes")),
+                             ("Mesh2_edge_faces", "edge_face_connectivity", ("nMesh2_edge", "Two")),
+                             ("Mesh2_face_faces", "face_face_connectivity", ("nMesh2_face", "nMaxMesh2_face_nodes")),
+                             ("Mesh2_node_faces", "node_face_connectivity", ("nMesh2_node", "nMaxMesh2_node_faces"))):
+        tab = np.asarray(getattr(g0, attr).values)
+        ds[name] = xr.DataArray(np.where(tab == INT_FILL, fv, tab + start).astype(dt), dims=dims,
+                                attrs=dict(start_index=start, _FillValue=dt(fv)))
+    ctx.hit("source-store:" + dialect["store"] + ("/file" if dialect["via_file"] else "/in-memory"))
+    key = ("ugrid-supplied", tag, m.rows(), str(sorted(dialect.items(), key=str)))
+    _with_source(ctx, ds, dialect["via_file"], "ugrid_supplied.nc",
+                 lambda src: judge_reopened(ctx, "ugrid", src, [{}] * dialect["n_open"], inp, key))
+
+
+def mpas_reopened(ctx, dialect=None):
+    """the MPAS sample as ONE in-memory dataset (connectivity kept int32 or widened to int64) opened as primal, dual, primal"""
+    import xarray as xr
+
+    mpas = "test/meshfiles/mpas/QU/mesh.QU.1920km.151026.nc"
+    f = _sample(mpas)
+    if not f.exists():
+        return
+    dialect = dialect or dict(store=ctx.rng.choice(["i32", "i64"]))
+    with xr.open_dataset(str(f)) as fds:
+        ds = fds.load()
+    if dialect["store"] == "i64":
+        for k in list(ds.data_vars):
+            if ds[k].dtype.kind == "i":
+                ds[k] = ds[k].astype(np.int64)
+    ctx.hit("source-store:" + dialect["store"] + "/in-memory")
+    inp = dict(file=mpas, mpas_reopened=dialect, use_dual=None)
+    judge_reopened(ctx, "mpas", ds, [{}, {"use_dual": True}, {}], inp, ("mpas-reopened", dialect["store"]))
+
+
+def judge_supplied(ctx, g, inp, key=None, prefix="C03/supplied/"):
     """file-supplied tables: every clause of the spec is about membership, so it applies as is"""
     d = ctx.driver
-    t = [[int(x) for x in r] for r in g.face_node_connectivity.values]
-    FE = [[int(x) for x in r] for r in g.face_edge_connectivity.values]
-    N = [int(x) for x in g.n_nodes_per_face.values]
-    n, w, n_edge = int(g.n_node), int(g.n_max_face_nodes), int(g.n_edge)
+    ctx.case(key or ("file", inp["file"], inp["use_dual"]), nontrivial=True, sample=None)
+    try:
+        t = [[int(x) for x in r] for r in g.face_node_connectivity.values]
+        FE = [[int(x) for x in r] for r in g.face_edge_connectivity.values]
+        N = [int(x) for x in g.n_nodes_per_face.values]
+        n, w, n_edge = int(g.n_node), int(g.n_max_face_nodes), int(g.n_edge)
+    except Exception as e:
+        ctx.fail(f"{prefix}raises/{type(e).__name__}", f"reading the face tables of a grid with file-supplied tables raises {type(e).__name__}: {e}", inp)
+        return
     enc = enc_in(n, w, t, FE, N, n_edge)
-    ctx.case(key or ("file", inp["file"], inp["use_dual"]), nontrivial=len(t) > 1, sample=None)
     if d.ask("C03.pre", enc) != "1":
         ctx.hit("supplied:pre-fails")
-        ctx.notes.append(f"{inp}: supplied face_edge table does not meet Pre (e.g. its own edge numbering is not tied to face_edge): not judged")
+        ctx.notes.append(f"{ {k: v for k, v in inp.items() if k != 'table'} }: supplied face_edge table does not meet Pre (e.g. its own edge numbering is not tied to face_edge): not judged")
         return
     try:
         o = observe(g)
     except Exception as e:
-        ctx.fail(f"C03/supplied/raises/{type(e).__name__}", f"reading the incidence tables of a grid with file-supplied tables raises {type(e).__name__}: {e}", inp)
+        ctx.fail(f"{prefix}raises/{type(e).__name__}", f"reading the incidence tables of a grid with file-supplied tables raises {type(e).__name__}: {e}", inp)
         return
     verdict = d.ask("C03.spec", enc, enc_rows(o["nodeFace"]), enc_pairs(o["edgeFace"]), enc_rows(o["faceFace"]), enc_ints(o["holes"]))
     ctx.hit("supplied:lean-spec-evaluated")
     if verdict != "ok":
         clauses = verdict.split(" ", 1)[1].split(",")
-        ctx.fail("C03/supplied/" + "+".join(clauses), "file-supplied incidence tables are not mutual transposes after reading: " + verdict,
+        ctx.fail(prefix + "+".join(clauses), "file-supplied incidence tables are not mutual transposes after reading: " + verdict,
                  inp, dict(dtypes=o["dtypes"]), None, clauses)
 
 
@@ -362,7 +498,8 @@ def run(ctx):
                 "over <= 8 nodes) filtered by the Lean precondition Incidence.Pre; grids DERIVED from them (random reads on the parent, then "
                 "isel by faces in any order / nodes / edges, chains, copy()) judged against their own face table; MPAS sample (primal and dual) with "
                 "file-supplied tables, synthetic ICON-style sources (triangle meshes, closed and with holes, whose file supplies face_edge / edge_face / "
-                "face_face one-based with 0 or -1 for a missing neighbour) and the suite's larger sample grids (up to 3840 faces in quick, 5400 in thorough), all judged by the Lean spec; distinct = "
+                "face_face one-based with 0 or -1 for a missing neighbour) and UGRID sources supplying all incidence tables, stored as int32 / int64 / float64, "
+                "the SAME in-memory dataset (or file) opened 2-3 times (MPAS: primal, dual, primal): every grid judged, earlier grids re-read and re-judged, grids compared and the suite's larger sample grids (up to 3840 faces in quick, 5400 in thorough), all judged by the Lean spec; distinct = "
                 "distinct face-node table; non-trivial = more than one face")
     ctx.assumptions = ["dict/list/np.pad semantics of the Python loops are tied to the model only by this differential run",
                        "face_edge_connectivity / n_nodes_per_face are taken from the implementation (their correctness is C02)"]
@@ -385,14 +522,32 @@ def run(ctx):
         if rng.random() < 0.7:
             m = m.renumber(rng)
         if all(len(f) == 3 for f in m.faces):
-            icon_like(ctx, m, m.kind + "+icon-like")
+            dl = draw_source_dialect(rng, missing=rng.choice([0, -1]))
+            if rep < 2:  # always present: the dataset already holds the standard integer type, in memory, opened three times
+                dl.update(store="i64", via_file=False, n_open=3)
+            icon_like(ctx, m, m.kind + "+icon-like", dl)
+    for rep in range(ctx.n(4, 30)):
+        rng = ctx.rng
+        m = rng.choice([lambda: meshes.patch(rng.choice([1, 2, 3]), rng.choice([1, 2])).split_some(rng), lambda: meshes.cube_sphere(rng.choice([1, 2])),
+                        lambda: meshes.prism(rng.choice([3, 5, 6])), lambda: meshes.dual_of(meshes.hull(rng.choice([8, 12]), rng)).drop_faces(rng, 0.3),
+                        lambda: meshes.archipelago(rng)])()
+        if rng.random() < 0.7:
+            m = m.renumber(rng)
+        dl = draw_source_dialect(rng, start=rng.choice([0, 1]), fill=rng.choice(["std", -1, 999999]))
+        if rep < 2:
+            dl.update(store="i64", via_file=False, n_open=3, start=rep, fill="std" if rep else -1)
+        ugrid_supplied(ctx, m, m.kind + "+ugrid-supplied", dl)
+    mpas_reopened(ctx)
     sample_files(ctx)
 
 
 def replay(ctx, rp):
     inp = rp["input"]
     if "table" not in inp:
-        sample_files(ctx)
+        if inp.get("mpas_reopened"):
+            mpas_reopened(ctx, inp["mpas_reopened"])
+        else:
+            sample_files(ctx)
         return
     t = inp["table"]
     faces = [[v for v in r if v != INT_FILL] for r in t]
@@ -404,5 +559,8 @@ def replay(ctx, rp):
         return
     if inp.get("icon_like"):
         icon_like(ctx, m, "replay", inp["icon_like"])
+        return
+    if inp.get("ugrid_supplied"):
+        ugrid_supplied(ctx, m, "replay", inp["ugrid_supplied"])
         return
     judge(ctx, m, "replay")
